@@ -1266,6 +1266,11 @@ prepos_parse (array_t * warr, int *cix_in, int *fail, svalue_t * prepos)
       parr = prepos->u.arr;
     }
 
+  /* without a list from the caller or from the master's
+   * parse_command_prepos_list() there is no preposition to match */
+  if (!parr)
+    parr = &the_null_array;
+
   for (pix = 0; pix < parr->size; pix++)
     {
       if (parr->item[pix].type != T_STRING)
